@@ -89,6 +89,15 @@ CORPUS = [
     # override key rewritten: older mementos keep their version; null under the same override removes only the link
     [["memoize", 1, 1, 1, 3], ["memoize", 4, 1, 1, 5], ["memoize", 4, 2, 1, None], ["lookread", 1, 1], ["lookread", 4, 1]],
     [["memoize", 1, 1, None, 2], ["fcall", 1, 1], ["memoize", 1, 1, None, 2], ["memoize", 2, 3, 2, 2], ["memoize", 2, 3, 2, 2]],
+    # two calls share one override key; forgetting either leaves the other's memento readable
+    [["memoize", 1, 1, 1, 3], ["memoize", 4, 1, 1, 5], ["fcall", 4, 1], ["lookread", 1, 1]],
+    [["memoize", 1, 1, 1, 3], ["memoize", 4, 1, 1, 5], ["fcall", 1, 1], ["lookread", 4, 1], ["ffn", 4], ["memoize", 1, 2, 1, 6], ["lookread", 1, 2]],
+    [["memoize", 1, 1, 3, 3], ["memoize", 1, 2, 3, 3], ["fcall", 1, 2], ["lookread", 1, 1], ["memoize", 1, 2, 3, 4], ["ffn", 1]],
+    # partitions: equal partitions (index and per-key blobs) from two calls share their objects; per-key blobs are shared
+    # with plain results of the same bytes; forgetting one call keeps the other readable
+    [["memoize", 1, 1, None, 1000], ["memoize", 4, 1, None, 1000], ["memoize", 1, 2, None, 1000], ["fcall", 1, 1], ["lookread", 4, 1]],
+    [["memoize", 1, 1, None, 1], ["memoize", 4, 1, None, 1000], ["memoize", 4, 2, None, 1003], ["ffn", 1], ["lookread", 4, 1], ["lookread", 4, 2]],
+    [["memoize", 1, 1, 1, 1001], ["memoize", 4, 1, 1, 1002], ["lookread", 1, 1], ["memoize", 4, 2, 1, 1001], ["fcall", 4, 1], ["lookread", 1, 1], ["lookread", 4, 2]],
 ]
 
 
@@ -101,7 +110,8 @@ def main(chk, replay=None):
                 "the filesystem backend (+-cache, shared/separate metadata). After every step: sha256 of every file under "
                 "c/ equals its name, one version per content key, every memento handed out so far (whose own call was not "
                 "forgotten) re-reads its creation-time bytes through a cache-less twin backend. Distinct = distinct "
-                "(config, ops); non-trivial = >= 2 memoize ops.")
+                "(config, ops); non-trivial = >= 2 memoize ops. Every third history also memoizes partitions (index + per-key "
+                "blobs); those run against the scanner and the dictionary only (partitions are outside the Lean op language).")
     proof_ok = chk.build_and_audit()
     quick = chk.tier == "quick"
     rng = chk.rng
@@ -115,6 +125,8 @@ def main(chk, replay=None):
                      sample=dict(config=cfg, ops=ops[:5], blobs=[t.get("blobs") for t in res["transcript"][:5]]))
             for t in res["transcript"]:
                 chk.count("op:" + t["op"][0])
+                if t["op"][0] == "memoize" and t["op"][4] is not None and t["op"][4] >= sw.PART0:
+                    chk.count("memoize:partition")
                 if t["op"][0] == "memoize":
                     chk.count("memoize:" + ("override" if t["op"][3] is not None else "content") + (":null" if t["op"][4] is None else ""))
             if res["integrity"]:
@@ -128,7 +140,8 @@ def main(chk, replay=None):
     for ops in CORPUS:
         go(ops, "corpus")
     for i in range(n):
-        go(sw.gen_ops(rng, rng.randint(4, 22 if quick else 50), fns=[1, 2, 4, 5], override_rate=0.3, nvals=14), "random")
+        go(sw.gen_ops(rng, rng.randint(4, 22 if quick else 50), fns=[1, 2, 4, 5], override_rate=0.3, nvals=14,
+                      part_rate=0.4 if i % 3 == 2 else 0.0), "random")
         if failures > 3:
             break
 
